@@ -405,6 +405,7 @@ def run_path(E, contract, fn, res):
             check_case(E, short, c, ctx, outcome)
         finally:
             del E.facts[nfacts:]
+            del E.fact_small[nfacts:]
             E.solver.pop()
 
 
